@@ -27,16 +27,22 @@ def c_pval(v):
     if isinstance(v, bool): return f"(PBool {cbool(v)})"
     if isinstance(v, int): return f"(PNum {cZ(v)})"
     return f"(PStr {cstr(v)})"
+def c_num(v):
+    """a Python number: bool, int, or a float that is a multiple of 0.5"""
+    if isinstance(v, bool): return f"(NBool {cbool(v)})"
+    if isinstance(v, int): return f"(NInt {cZ(v)})"
+    if isinstance(v, float) and float(int(v * 2)) == v * 2: return f"(NHalf {cZ(int(v * 2))})"
+    raise ValueError(v)
 def c_stval(v):
-    if isinstance(v, bool): raise ValueError
-    if isinstance(v, int): return f"(SInt {cZ(v)})"
-    return f"(SStr {cstr(v)})"
+    if v is None: return "SNone"
+    if isinstance(v, str): return f"(SStr {cstr(v)})"
+    return f"(SNum {c_num(v)})"
 def c_apar(v):
-    if isinstance(v, int): return f"(QInt {cZ(v)})"
-    return f"(QStr {cstr(v)})"
+    if isinstance(v, str): return f"(QStr {cstr(v)})"
+    return f"(QNum {c_num(v)})"
 def c_aval_plain(v):
-    if isinstance(v, int): return f"(AInt {cZ(v)})"
-    return f"(AStr {cstr(v)})"
+    if isinstance(v, str): return f"(AStr {cstr(v)})"
+    return f"(ANum {c_num(v)})"
 CMP = {"eq": "OEq", "ne": "ONe", "gte": "OGte", "gt": "OGt", "lte": "OLte", "lt": "OLt"}
 AOP = {"eq": "AEq", "ne": "ANe", "gte": "AGte", "gt": "AGt", "lte": "ALte", "lt": "ALt", "in": "AIn", "not_in": "ANotIn"}
 def c_rx(p):
@@ -156,14 +162,17 @@ def snap_tree(t):
     if "n" in t: return "DNode " + clist("(" + snap_tree(x) + ")" for x in t["n"])
     f, vs, ap = t["l"]
     return f"DLeaf (mkD {ostr(f)} {clist(snap_val(v) for v in vs)} {clist(cstr(a) for a in ap)})"
+def snap_plain(v):
+    if v[0] == "s": return v[1]
+    if v[0] == "z": return None
+    if v[0] == "b": return bool(v[1])
+    if v[0] == "n": return int(v[1])
+    if v[0] == "f": return float(v[1])
+    raise ValueError(v)
 def snap_plain_a(v):
-    if v[0] == "n": return f"AInt {cZ(v[1])}"
-    if v[0] == "s": return f"AStr {cstr(v[1])}"
-    raise ValueError(v)
+    return c_aval_plain(snap_plain(v))
 def snap_plain_s(v):
-    if v[0] == "n": return f"SInt {cZ(v[1])}"
-    if v[0] == "s": return f"SStr {cstr(v[1])}"
-    raise ValueError(v)
+    return c_stval(snap_plain(v))
 def snap_world(r, s):
     custom = clist(f"({cstr(k)}, {snap_plain_a(v)})" for k, v in s["custom"])
     dets = clist(f"({cstr(n)}, {snap_tree(t)})" for n, t in s["dets"])
@@ -194,7 +203,8 @@ STRVALS = ["x", "x*", "?y", "evil.exe", "123", "MARK", "", "a b", "X"]
 IDS = ["i1", "i2", "i3", "i4"]
 KEYS = ["a", "b", "c1", "notx", "and_1", "or-b", "x-y", "_k", "nota", "N0T", "android", "1"]
 STATE_KEYS = ["k1", "k2"]
-STATE_VALS = ["v1", "v2", 1, 2, "1", 10]
+STATE_VALS = ["v1", "v2", 1, 2, "1", 10, 0, 0, 0.0, False, True, "", "", -1, -1.5, 0.5, "0", None, "-1"]
+FALSY = [0, 0.0, False, "", None]
 ATTRS = ["title", "id", "level", "status", "date", "author", "description", "custom_attributes", "detection",
          "taxonomy", "references", "fields", "tags", "mycustom", "other", "nonexistent", "to_dict", "logsource"]
 
@@ -235,7 +245,8 @@ def gen_rule(rng):
          "date": rng.choice([None, "2020-02-29", "2023-12-31"]), "author": rng.choice([None, "me"]),
          "tags": rng.sample(["attack.t1059", "attack.execution", "cve.2020-1", "a.b.c"], rng.choice([0, 1, 2])),
          "fields": [rng.choice(FIELDS + ["zz"]) for _ in range(rng.choice([0, 0, 1, 2, 3]))],
-         "custom": rng.choice([[], [], [["mycustom", "x"]], [["mycustom", 5]], [["other", "7"], ["mycustom", -3]]]),
+         "custom": rng.choice([[], [], [["mycustom", "x"]], [["mycustom", 5]], [["other", "7"], ["mycustom", -3]], [["mycustom", 0]],
+                               [["mycustom", ""], ["other", 0.5]], [["mycustom", False]], [["mycustom", 0.0], ["other", True]]]),
          "dets": [[n, gen_det(rng)] for n in (["sel"] if rng.random() < 0.6 else ["sel", "flt"])]}
     return r
 
@@ -253,6 +264,7 @@ def rule_field_names(r):
 
 def gen_rx(rng, seedstr=None):
     if rng.random() < 0.015: return ["bad"]
+    if rng.random() < 0.06: return rng.choice([[], ["end"], ["star"], ["any"], ["star", "end"]])
     p = []
     s = seedstr if seedstr is not None else rng.choice(STRVALS + FIELDS)
     for ch in s[:rng.choice([1, 2, 3, 8])]:
@@ -271,10 +283,13 @@ _STATE_HINT = []   # (key, value) pairs set by the preceding items of the pipeli
 def gen_state_cond(rng):
     if _STATE_HINT and rng.random() < 0.7:
         k, v = rng.choice(_STATE_HINT)
-        if isinstance(v, int) and rng.random() < 0.5: v = v + rng.choice([-1, 0, 0, 1])
-        elif isinstance(v, str) and rng.random() < 0.3: v = rng.choice([v + "a", v[:-1], v.upper()])
+        if isinstance(v, bool):
+            if rng.random() < 0.5: v = rng.choice([0, 1, 0.0, not v])
+        elif isinstance(v, (int, float)) and rng.random() < 0.5: v = v + rng.choice([-1, 0, 0, 1, 0.5, -0.5])
+        elif isinstance(v, str) and rng.random() < 0.3: v = rng.choice([v + "a", v[:-1], v.upper(), ""])
+        elif v is None and rng.random() < 0.5: v = rng.choice(FALSY)
         return {"t": "processing_state", "key": k, "val": v, "op": rng.choice(list(CMP))}
-    return {"t": "processing_state", "key": rng.choice(STATE_KEYS + ["k9"]), "val": rng.choice(STATE_VALS),
+    return {"t": "processing_state", "key": rng.choice(STATE_KEYS + ["k9", ""]), "val": rng.choice(STATE_VALS),
             "op": rng.choice(list(CMP) + ["eq", "eq", "ne"])}
 
 def gen_cond(rng, kind, r, names):
@@ -283,7 +298,7 @@ def gen_cond(rng, kind, r, names):
                         "is_sigma_rule", "is_sigma_correlation_rule", "rule_attribute", "rule_attribute", "tag"])
         if t == "logsource":
             c = {"t": t}
-            for k, pool in (("category", ["process_creation", "net"]), ("product", ["windows", "linux"]), ("service", ["sysmon", "x"])):
+            for k, pool in (("category", ["process_creation", "net", ""]), ("product", ["windows", "linux"]), ("service", ["sysmon", "x", ""])):
                 if rng.random() < 0.4: c[k] = rng.choice(pool)
             if len(c) == 1 and rng.random() < 0.8: c["product"] = "windows"
             return c
@@ -295,7 +310,7 @@ def gen_cond(rng, kind, r, names):
         if t == "rule_attribute":
             a = rng.choice(ATTRS) if rng.random() < 0.3 else rng.choice(["title", "level", "status", "date", "author", "fields", "tags", "mycustom", "other", "taxonomy", "id"])
             typed = {"level": LEVELS + ["HIGH"], "status": STATUSES, "date": ["2020-02-29", "2021-01-01", "2019-01-01", "2023-12-31"],
-                     "mycustom": [5, -3, "5", "x", 0, 6, 4], "other": ["7", "8", 7], "title": ["Test", "T2"], "author": ["me", "you"],
+                     "mycustom": [5, -3, "5", "x", 0, 6, 4, "0", "", False, 0.0, "0.5", True, 1, "-0"], "other": ["7", "8", 7, 0.5, "0.5", 1, True, ""], "title": ["Test", "T2"], "author": ["me", "you"],
                      "fields": FIELDS + ["zz"], "tags": ["attack.t1059", "a.b.c", "x.y"], "taxonomy": ["sigma", "x"]}
             if a in typed and rng.random() < 0.8:
                 v = rng.choice(typed[a])
@@ -305,7 +320,7 @@ def gen_cond(rng, kind, r, names):
             ops = list(AOP) if a in ("fields", "tags") or rng.random() < 0.2 else ["eq", "ne", "gte", "gt", "lte", "lt"]
             if a in ("title", "author", "taxonomy", "id") and rng.random() < 0.8: ops = ["eq", "ne"]
             return {"t": t, "attribute": a, "value": v, "op": rng.choice(ops)}
-        if t == "tag": return {"t": t, "tag": rng.choice(["attack.t1059", "attack.execution", "a.b.c", "a.b", "cve.2020-1"] if rng.random() < 0.97 else ["nodot"])}
+        if t == "tag": return {"t": t, "tag": rng.choice(["attack.t1059", "attack.execution", "a.b.c", "a.b", "cve.2020-1", "a.", ".b"] if rng.random() < 0.97 else ["nodot", ""])}
         return {"t": t}
     if kind == "det":
         t = rng.choice(["match_string", "match_string", "match_value", "match_value", "contains_wildcard", "is_null",
@@ -387,15 +402,15 @@ def gen_transf(rng, names, marker=False):
             ["set_state", "set_state", "change_logsource", "field_name_suffix", "field_name_prefix", "field_name_mapping",
              "field_name_mapping", "set_custom_attribute", "set_value"]
     t = rng.choice(kinds)
-    if t == "set_state": return {"type": t, "key": rng.choice(STATE_KEYS), "val": rng.choice(STATE_VALS)}
+    if t == "set_state": return {"type": t, "key": rng.choice(STATE_KEYS + [""]), "val": rng.choice(STATE_VALS)}
     if t == "change_logsource":
         c = {"type": t}
         for k, pool in (("category", ["process_creation", "net"]), ("product", ["windows", "linux"]), ("service", ["sysmon"])):
             if rng.random() < 0.5: c[k] = rng.choice(pool)
         if len(c) == 1 and rng.random() < 0.9: c["product"] = "linux"
         return c
-    if t == "set_custom_attribute": return {"type": t, "attribute": rng.choice(["mycustom", "other", "marker"]), "value": rng.choice(["x", "M", 5, 7])}
-    if t == "set_value": return {"type": t, "value": rng.choice(["MARK", "x", 1, None, True])}
+    if t == "set_custom_attribute": return {"type": t, "attribute": rng.choice(["mycustom", "other", "marker"]), "value": rng.choice(["x", "M", 5, 7, 0, "", False, 0.5, True, -1])}
+    if t == "set_value": return {"type": t, "value": rng.choice(["MARK", "x", 1, None, True, 0, "", False])}
     if t == "field_name_suffix": return {"type": t, "suffix": rng.choice(["_S", "_S", ".x", ""])}
     if t == "field_name_prefix": return {"type": t, "prefix": rng.choice(["p.", "p."])}
     m = {}
@@ -482,6 +497,47 @@ def boundary_cases():
             for op in CMP:
                 for kind in ("rule", "det", "field"):
                     out.append({"rule": BOUND_RULE, "items": [setter, marker_item(kind, {"t": "processing_state", "key": "k1", "val": v, "op": op})]})
+    # a state key set to a falsy value is set: every operator, at every level, with and without the negation flag
+    setters = [0, 0.0, False, "", None, -1, "0", True, 0.5]
+    vals = [0, 1, -1, 0.5, False, "", "0", None, 0.0]
+    n = 0
+    for sv in setters:
+        setter = {"id": "s", "tr": {"type": "set_state", "key": "k1", "val": sv}, "rule": dict(EMPTY), "det": dict(EMPTY), "field": dict(EMPTY)}
+        for v in vals:
+            for op in CMP:
+                for kind in ("rule", "det", "field"):
+                    n += 1
+                    it = marker_item(kind, {"t": "processing_state", "key": "k1", "val": v, "op": op})
+                    it[kind]["neg"] = (n % 2 == 0)
+                    if n % 5 == 0: it[kind]["link"] = "or"
+                    out.append({"rule": BOUND_RULE, "items": [setter, it]})
+    # falsy attribute values
+    frule = dict(BOUND_RULE, custom=[["mycustom", 0], ["other", ""], ["flag", False], ["ratio", 0.5], ["zero", 0.0], ["yes", True]])
+    for a in ("mycustom", "other", "flag", "ratio", "zero", "yes"):
+        for v in [0, "0", "", False, 0.5, "0.5", 1, "1", True, -1, "x", "1.0", "-0"]:
+            for op in AOP:
+                n += 1
+                it = marker_item("rule", {"t": "rule_attribute", "attribute": a, "value": v, "op": op})
+                it["rule"]["neg"] = (n % 2 == 0)
+                out.append({"rule": frule, "items": [it]})
+    # match_string / match_value on empty and falsy values
+    vrule = dict(BOUND_RULE, dets=[["sel", {"map": [["a", "", ["", "x"]], ["b", "", [""]], ["c", "", [0, False]], ["User", "", ["xy", None]]]}]])
+    for pat in ([], ["end"], ["any"], ["star"], [["l", "x"]], [["l", "x"], "end"], ["star", "end"], ["any", "end"], [["l", "x"], "any"]):
+        for cond in ("any", "all"):
+            for negate in (False, True):
+                n += 1
+                it = marker_item("det", {"t": "match_string", "cond": cond, "pattern": pat, "negate": negate})
+                it["det"]["neg"] = (n % 2 == 0)
+                out.append({"rule": vrule, "items": [it]})
+    for v in [0, False, "", None, 1, True, "x", "0"]:
+        for cond in ("any", "all"):
+            for neg in (False, True):
+                it = marker_item("det", {"t": "match_value", "cond": cond, "value": v})
+                it["det"]["neg"] = neg
+                out.append({"rule": vrule, "items": [it]})
+                it2 = marker_item("rule", {"t": "contains_detection_item", "field": "c" if v != "" else "b", "value": v})
+                it2["rule"]["neg"] = neg
+                out.append({"rule": vrule, "items": [it2]})
     attrs = {"level": ["low", "high", "critical", "High", "x"], "status": ["deprecated", "test", "stable", "TEST"],
              "date": ["2020-02-28", "2020-02-29", "2020-03-01", "2019-12-31", "2020-02-30"], "mycustom": [4, 5, 6, "5", "6", "-5", "x"],
              "other": ["7", 7, "8"], "title": ["Test", "Tes", 5], "fields": ["a", "zz", "b", 1], "tags": ["attack.t1059", "a.b", "a.b.c"],
@@ -560,7 +616,7 @@ def gen_pipe(tier, rng):
     nrand, nhist = (700, 200) if tier == "quick" else (14000, 4000)
     if tier == "quick":
         out = rng.sample(out, 480)
-    out += bnd
+    out += bnd if tier != "quick" else rng.sample(bnd, 1100)
     rnd = [gen_random_case(rng) for _ in range(nrand)]
     for c in rnd:
         if rng.random() < 0.3:
@@ -694,7 +750,7 @@ PROPERTY = Property(
     assumptions=[
         "rule targets are detection rules (SigmaRule); correlation rules are not modelled",
         "Python re.match for the generated pattern fragment (literals, '.', '\\d', '.*', '$') is modelled by Model.PipeCond.rmatch and validated only by the correspondence",
-        "float()/date.fromisoformat()/str.upper() are modelled for the generated parameter strings (signed decimal integers, YYYY-MM-DD, ASCII)",
+        "float()/date.fromisoformat()/str.upper() are modelled for the generated parameter strings (signed decimals with an optional .0 or .5, YYYY-MM-DD, ASCII); state values, custom attribute values and condition parameters range over str, int, bool, floats k/2 and None",
         "string values contain no backslash, so str(SigmaString) is the source text",
         "attributes of the SigmaRule object reachable by getattr are given by a table computed from the source rule (props/c13.py static_attrs)",
         "the state after every item is observed by wrapping the bound apply method of each ProcessingItem (impl/c13.py)",
